@@ -12,8 +12,11 @@ every builder `build_builder` constructs) instead of `WFB` and `Safe`.
   push_err_iff'         error IFF not representable (⇐ through `push_interp'`)
   foldl_push_complete'  the fold over the rows succeeds
   runRows_complete'     `runRows_complete` without `hsafe`
-The other hypotheses (`NoCap`, `total`, `Shape`, `noRaw`) are those of Props/C01Complete.lean.  (`toMarrow_complete'` needs
-`finish_total` on `WFH`; not here.)
+  toMarrow_complete'    `toMarrow_complete` without `hsafe` (through `Lemmas.C03.toMarrow_totalH` / `finish_totalH`:
+                        `into_array` on the weak invariant, Lemmas/C03ObsTotal.lean)
+  toMarrow_complete_decode'   … and the arrays decode to `interpRow` of the records (`C01_build_decode'`)
+The other hypotheses (`NoCap`, `total`, `Shape`, `noRaw`; at root level `coveredF`, `totalFs`, `typedFs`, the capacity bound)
+are those of Props/C01Complete.lean.
 -/
 namespace SaModel.Props.C01
 open SaModel SaModel.Build SaModel.Spec
